@@ -432,6 +432,14 @@ func buildVariants(c ReprCase, known map[string]bool) ([]variant, bool) {
 func traceOf(spec *core.Spec, c ReprCase) (string, int) {
 	st := &core.State{NodeName: c.Node, Bs: match.Bindings(jsongen.CopyMap(c.Bs))}
 	var sb strings.Builder
+	// the nodes the compiled specification has (however it was written,
+	// and however often it was compiled, it is one and the same machine)
+	names := make([]string, 0, len(spec.Nodes))
+	for name := range spec.Nodes {
+		names = append(names, name)
+	}
+	sort.Strings(names)
+	fmt.Fprintf(&sb, "nodes %q;", names)
 	moves := 0
 	for _, m := range c.Messages {
 		var w *core.Walked
